@@ -23,5 +23,14 @@ for rel in rels:
   for q in m._funcs:
     table[reference.unit_key(('func', rel, q))] = reference.unit_digest(repo, ('func', rel, q))
 out['__all_units__'] = table
+nested = {}
+for rel in rels:
+  m = repo._load(rel)
+  for q, f in m._funcs.items():
+    if '.' in q and q.rsplit('.', 1)[0] in m._funcs:
+      kids = m._children(q.rsplit('.', 1)[0])
+      from vf import astu
+      nested['%s|%s' % (rel, q)] = [[k.qual for k in kids].index(q), len(astu.params(f.node)), len(kids)]
+out['__nested__'] = nested
 json.dump(out, open(reference.PATH, 'w'), indent=0, sort_keys=True)
-print('rules: %d, units: %d, table: %d' % (len(out) - 1, sum(len(v['units']) for k, v in out.items() if k != '__all_units__'), len(table)))
+print('rules: %d, units: %d, table: %d' % (len(out) - 2, sum(len(v['units']) for k, v in out.items() if not k.startswith('__')), len(table)))
